@@ -199,6 +199,60 @@ def run(rep):
     rep.floor("R6-lossless-serialisation", 1)
     if n6 < 100:
         raise AnalysisError(f"C20 R6: only {n6} formatter instantiations found in forc_pkg (extractor drift?)")
+    # ---- R5b: the writer asks "is this *package name* ambiguous" -------------------------------------------------------
+    # names_requiring_disambiguation collects package names, and the reader resolves `(<dep name>) <package name> [<source>]` by
+    # package name; so the key looked up in the set when a dependency line is written must be the name of the target package
+    # (a node weight of the graph), not the dependency's name on the edge.
+    def _root_of_name(fn_, o, depth=10):
+        defs_ = mir.defs_of(fn_)
+        while depth > 0 and "l" in o:
+            depth -= 1
+            flds = [p_[3] for p_ in o.get("p", []) if isinstance(p_, list) and p_[0] == "f"]
+            if "name" in flds:
+                return o["l"]
+            ds_ = defs_.get(o["l"], [])
+            if len(ds_) != 1:
+                return None
+            _, _, k_, srcs_, node_ = ds_[0]
+            if k_ in ("use", "ref", "cast") and srcs_:
+                o = srcs_[0]
+                continue
+            if k_ == "call" and node_.get("a") and re.search(r"Index<.*>>::index$|Deref>::deref$|::as_str$|Borrow<.*>>::borrow$|AsRef<.*>>::as_ref$", node_.get("rn") or node_.get("fp", "")):
+                o = node_["a"][0]
+                continue
+            return None
+        return None
+    n5b = 0
+    for f in F.fns.values():
+        if f.crate != "forc_pkg" or "PkgLock::from_node" not in f.name:
+            continue
+        for bi, t in f.calls():
+            if not re.search(r"HashSet::<T, S, A>::contains$", t.get("fp", "")) or len(t.get("a", [])) < 2:
+                continue
+            n5b += 1
+            base = _root_of_name(f, t["a"][1])
+            how = "unresolved"
+            ok5b = False
+            if base is not None:
+                # the struct whose `.name` is taken: reference to the result of indexing the graph by a node index (a package), or an edge weight
+                o2 = {"l": base}
+                for _ in range(6):
+                    ds_ = mir.defs_of(f).get(o2["l"], [])
+                    if len(ds_) != 1:
+                        break
+                    _, _, k_, srcs_, node_ = ds_[0]
+                    if k_ in ("use", "ref") and srcs_:
+                        o2 = srcs_[0]
+                        continue
+                    if k_ == "call":
+                        fn_full = node_.get("fn", "") or node_.get("fp", "")
+                        how = fn_full[:120]
+                        ok5b = re.search(r"Index<petgraph::graph_impl::NodeIndex", fn_full) is not None or re.search(r"node_weight", fn_full) is not None
+                    break
+            rep.ob("R5b-disambiguation-looked-up-by-package-name", f"{f.name}|contains#{n5b}", ok5b, f.file, t["ln"],
+                   "a dependency line gets its source when the *target package's* name is ambiguous (that is what the set holds and what the reader resolves by); "
+                   f"the key looked up here is the `.name` of a value obtained from `{how}`")
+    rep.floor("R5b-disambiguation-looked-up-by-package-name", 1, n5b)
     PL = "forc_pkg::lock::PkgLock"
     fn_from = F.fn(PL + "::from_node")
     fn_to = F.fn("forc_pkg::lock::Lock::to_graph")
